@@ -69,8 +69,8 @@ class TTMatrix:
             # Note: tensor is now a reshape of matrix with dimesions stored as
             # b x i_0 x j_0, ..., i_{d - 1} x j_{d - 1}
 
-            new_dims: List[int] = (
-                torch.tensor([0] + list(zip(dims[: self.d], dims[self.d :])))
+            new_dims: List[int] = [0] + (
+                torch.tensor(list(zip(dims[: self.d], dims[self.d :])))
                 .flatten()
                 .tolist()
             )
@@ -142,7 +142,7 @@ class TTMatrix:
         if self.batch:
             tensor = tensor.reshape([-1] + shape)
             dims = list(range(1, 2 * self.d + 1))
-            tensor = tensor.permute([0] + dims[1::2] + dims[2::2])
+            tensor = tensor.permute([0] + dims[0::2] + dims[1::2])
             return tensor.reshape(-1, rows, cols)
         else:
             tensor = tensor.reshape(shape)
